@@ -54,14 +54,26 @@ class ParserProxy:
         return getattr(self._real, name)
 
 
+def _parser_attrs(mod):
+    """names of the module attributes that hold the Lark object (usually just `_parser`; survives a rename)"""
+    import lark
+
+    names = [n for n, v in vars(mod).items() if isinstance(v, (lark.Lark, ParserProxy))]
+    if "_parser" in names:
+        names.remove("_parser")
+        names.insert(0, "_parser")
+    return names
+
+
 def real_parser(which: str):
     import ahbicht.expressions.ahb_expression_parser as aep
     import ahbicht.expressions.condition_expression_parser as cep
 
     mod = cep if which == "condition" else aep
-    p = getattr(mod, "_parser", None)
-    if p is None:
-        raise xs.HarnessError(f"{mod.__name__}._parser not found (refactored?)")
+    names = _parser_attrs(mod)
+    if not names:
+        raise xs.HarnessError(f"{mod.__name__}: no module-level Lark object found (refactored?)")
+    p = getattr(mod, names[0])
     return p._real if isinstance(p, ParserProxy) else p
 
 
@@ -70,11 +82,13 @@ def install_parser_proxies() -> None:
     import ahbicht.expressions.condition_expression_parser as cep
 
     for mod in (cep, aep):
-        p = getattr(mod, "_parser", None)
-        if p is None or not hasattr(p, "parse"):
-            raise xs.HarnessError(f"{mod.__name__}._parser not found (refactored?)")
-        if not isinstance(p, ParserProxy):
-            mod._parser = ParserProxy(p)
+        names = _parser_attrs(mod)
+        if not names:
+            raise xs.HarnessError(f"{mod.__name__}: no module-level Lark object found (refactored?)")
+        for n in names:
+            p = getattr(mod, n)
+            if not isinstance(p, ParserProxy):
+                setattr(mod, n, ParserProxy(p))
 
 
 def raw_parse_condition(text: str):
